@@ -3,11 +3,11 @@ package main
 // SEQ / who-may-call rules for cmd/gxz (C10, C15).
 
 import (
-	"os"
 	"fmt"
 	"go/constant"
 	"go/token"
 	"go/types"
+	"os"
 	"sort"
 	"strings"
 
@@ -481,8 +481,7 @@ func ruleGxzDataSafety(c *Ctx, r *Report, prefix string) {
 	// checked on the name handed to OpenFile, above)
 	if tmpName == newWriter {
 		r.Pass(rule, "tmpName:suffix", c.Pos(newWriter.Pos()), "tmpName inlined into newWriter: suffix checked at the OpenFile call", 1)
-	} else
-	{
+	} else {
 		ok := true
 		n := 0
 		for _, b := range theCtx.GB(tmpName) {
